@@ -12,7 +12,7 @@ mkdir -p $S
 [ -d $S/repo ] || git -C /repo worktree add --detach $S/repo HEAD >/dev/null 2>&1
 mkdir -p $S/verif
 rsync -a --delete --exclude out --exclude .git --exclude harness/target /verif/ $S/verif/
-git -C /verif archive HEAD | tar -x -C $S/verif
+git -C /verif archive ${VERIF_COMMIT:-HEAD} | tar -x -C $S/verif
 sed -i "s#path = \"/repo#path = \"$S/repo#g" $S/verif/harness/Cargo.toml
 for p in $1; do
   if [ -f /verif/seeded/$p-$R/patch.diff ]; then
